@@ -607,9 +607,38 @@ class C02(F.Check):
         self.extra_cov["pair_generation"] = stats
         return pairs
 
+    def spelling_kernels(self):
+        """closed sweep: every spelling of every library unit (maker, singular name, symbol, singular * unit products) denotes the
+        unit the type denotes - independent of the seeded random expressions"""
+        ks = []
+        self.spell = []
+        for n in U.LIBRARY:
+            if not isinstance(n, U.Named):
+                continue
+            forms = [("maker", "au::" + n.maker if n.maker else None), ("singular", "au::" + n.singular if n.singular else None),
+                     ("symbol", "au::symbols::" + n.symbol if n.symbol else None)]
+            for w, expr in forms:
+                if not expr:
+                    continue
+                tag = "%s_%s" % (w, n.cxx.replace("<", "_").replace(">", "_").replace("::", "_"))
+                k = F.Kernel("c02_spell_%s" % tag, "bool", [],
+                             "return are_units_quantity_equivalent(associated_unit(%s), %s{}) && (unit_ratio(%s, %s{}) == mag<1>());" % (expr, n.cxx, expr, n.cxx),
+                             key={"unit": n.cxx, "spelling": w, "expr": expr}, family="spelling_" + w, native=False)
+                ks.append(k)
+                self.spell.append(k)
+                if w in ("singular", "symbol") and n.cxx != "Meters":
+                    k2 = F.Kernel("c02_spellprod_%s" % tag, "bool", [],
+                                  "return unit_ratio(%s * au::symbols::m, %s{} * Meters{}) == mag<1>();" % (expr, n.cxx)
+                                  if w == "symbol" else
+                                  "return unit_ratio(au::meters / %s, Meters{} / %s{}) == mag<1>();" % (expr, n.cxx),
+                                  key={"unit": n.cxx, "spelling": w + " in a compound", "expr": expr}, family="spelling_compound", native=False)
+                    ks.append(k2)
+                    self.spell.append(k2)
+        return ks
+
     def kernels(self):
         rng = self.rng
-        ks = []
+        ks = self.spelling_kernels()
         self.pairs = self.gen_pairs()
         self.inst = []
         modes = {}
@@ -680,6 +709,15 @@ class C02(F.Check):
 
     def obligations(self, K):
         obs = []
+        for k in getattr(self, "spell", []):
+            if K[k.name].kernel.dropped:
+                self.notes.append("spelling probe does not compile (skipped): %s: %s" % (k.key, K[k.name].kernel.dropped[:120]))
+                continue
+
+            def sfn(K, name=k.name):
+                return T.TRUE, K[name]().ret
+            obs.append(F.Ob("spelling:" + k.name, [], sfn, kind="closed", key=k.key, kernels=[k.name],
+                            note="this spelling denotes exactly the unit its type denotes (ratio 1)"))
         ndrop = 0
         nk = 0
         for rec in self.inst:
